@@ -905,15 +905,31 @@ impl Trivia {
             let index = anchors.partition_point(|anchor| anchor.start <= offset);
             anchors.get(index)
         };
-        // The node a trailing comment follows: the anchor ending nearest before it.
+        // The node a trailing comment follows: the anchor ending nearest before it (its end and start).
         let preceding = |offset: usize| {
             let index = by_end.partition_point(|&(end, _)| end <= offset);
-            index.checked_sub(1).map(|i| by_end[i].1)
+            index.checked_sub(1).map(|i| by_end[i])
         };
-        // The innermost node around a comment that is inside a string (rare: a linear search).
+        // The innermost node around a comment that has no node of its own to go to (rare: a linear
+        // search).
         let enclosing = |offset: usize| {
             let inside = |anchor: &&Anchor| anchor.start <= offset && offset < anchor.end;
-            anchors.iter().rev().find(inside).map(|anchor| anchor.start)
+            anchors.iter().rev().find(inside)
+        };
+        // Whether the first code after a comment (and any further comments) is a closing `}`, `]` or
+        // `)`: the comment is then the last thing in those brackets.
+        let before_closer = |offset: usize| {
+            let mut rest = &source[offset..];
+            while rest.starts_with("//") {
+                rest = rest.find('\n').map_or("", |at| rest[at..].trim_start());
+            }
+            rest.starts_with(['}', ']', ')'])
+        };
+        // Whether the code before a comment on its line ends in an opening `{`, `[`, `(` or a `|`:
+        // the comment is then the first thing of what follows, not the last of a node before it.
+        let after_opener = |offset: usize| {
+            let line = &source[source[..offset].rfind('\n').map_or(0, |at| at + 1)..offset];
+            line.trim_end().ends_with(['{', '[', '(', '|'])
         };
         for item in scan_trivia(source, &string_kinds(program)) {
             match item {
@@ -936,32 +952,52 @@ impl Trivia {
                     ..
                 } => match enclosing(offset) {
                     Some(anchor) => leading
-                        .entry(anchor)
-                        .or_default()
-                        .push(TriviaItem::Comment(text)),
-                    None => dangling.push(TriviaItem::Comment(text)),
-                },
-                Scanned::Comment {
-                    offset,
-                    text,
-                    trailing: true,
-                    ..
-                } => match preceding(offset) {
-                    Some(anchor) => trailing.entry(anchor).or_default().push(text),
-                    None => dangling.push(TriviaItem::Comment(text)),
-                },
-                Scanned::Comment {
-                    offset,
-                    text,
-                    trailing: false,
-                    ..
-                } => match following(offset) {
-                    Some(anchor) => leading
                         .entry(anchor.start)
                         .or_default()
                         .push(TriviaItem::Comment(text)),
                     None => dangling.push(TriviaItem::Comment(text)),
                 },
+                Scanned::Comment {
+                    offset,
+                    text,
+                    trailing: is_trailing,
+                    ..
+                } => {
+                    let before = preceding(offset);
+                    let around = enclosing(offset);
+                    // The node the comment leads: the next one, unless that lies outside the brackets
+                    // or the node the comment is in (before a closing bracket, in an empty `[ ]`,
+                    // inside a pattern).
+                    let next = following(offset)
+                        .filter(|next| around.is_none_or(|around| next.start < around.end))
+                        .filter(|_| !before_closer(offset));
+                    match (before, next, around) {
+                        // It trails the node that ends before it — unless another comment lies in
+                        // between, which it must not overtake.
+                        (Some((end, node)), _, _)
+                            if is_trailing
+                                && !after_opener(offset)
+                                && !source[end..offset].contains("//") =>
+                        {
+                            trailing.entry(node).or_default().push(text)
+                        }
+                        (_, Some(next), _) => leading
+                            .entry(next.start)
+                            .or_default()
+                            .push(TriviaItem::Comment(text)),
+                        // Nothing follows it in the node it is in: it stays below the last node in
+                        // there, or on top of the node itself. (At the next node outside, or at the end
+                        // of the file, it would come after comments that follow it in the source.)
+                        (Some((end, node)), None, Some(around)) if end > around.start => {
+                            trailing.entry(node).or_default().push(text)
+                        }
+                        (_, None, Some(around)) => leading
+                            .entry(around.start)
+                            .or_default()
+                            .push(TriviaItem::Comment(text)),
+                        (_, None, None) => dangling.push(TriviaItem::Comment(text)),
+                    }
+                }
             }
         }
         Trivia {
@@ -986,13 +1022,19 @@ impl Trivia {
         let Some(comments) = span.get().and_then(|span| self.trailing.get(&span.offset)) else {
             return pretty::nil();
         };
+        // The first comment ends the node's last line. A comment runs to the end of its line, so any
+        // further one goes on a line of its own below it (still deferred, so a `,` stays on the node's
+        // line): on one line it would become part of the first.
         let parts = comments
             .iter()
-            .flat_map(|text| {
-                [
-                    pretty::line_suffix(pretty::text(format!(" {}", text))),
-                    pretty::break_parent(),
-                ]
+            .enumerate()
+            .flat_map(|(index, text)| {
+                let comment = if index == 0 {
+                    pretty::text(format!(" {}", text))
+                } else {
+                    pretty::concat(vec![pretty::hardline(), pretty::text(text.clone())])
+                };
+                [pretty::line_suffix(comment), pretty::break_parent()]
             })
             .collect();
         pretty::concat(parts)
